@@ -7,6 +7,8 @@
 //	mode      seq | pipe | byte   (one request at a time / all requests in one write / head written byte by byte)
 //	          part<seed>          request i+1 is PARTLY written together with request i (cut inside its request line,
 //	                              header block or body, chosen from seed); the rest is sent only after response i arrived
+//	          multi.<T>.<G>       several client connections (separated by the token N) one after the other through the same
+//	                              proxy, see multi.go
 //	          life.<T>.<G>        proxy.SetTimeout(T ms); the client pauses G ms before every request (G << T, total lifetime > T)
 //	exchange  X:<METHOD>:<o|a>:<hex path?query>:<0|1 http/1.0>:<hdrs>:<len>.<seed>.<digest>:<c|k<seed>|n>
 //	           :<status>:<0|1 http/1.0>:<hdrs>:<[z]len>.<seed>.<digest>.<bytes on the wire>:<c|k<seed>|x|n>   (z: gzip of the generated body)
@@ -281,6 +283,9 @@ func runCase(in []string) (out []string) {
 		return []string{"BADCASE"}
 	}
 	mode := in[1]
+	if strings.HasPrefix(mode, "multi.") {
+		return runMulti(in)
+	}
 	var exs []*exch
 	for _, t := range in[2:] {
 		e, err := parseExch(t)
@@ -514,6 +519,28 @@ func runCase(in []string) (out []string) {
 // separate an overloaded machine from a proxy that really is stuck.
 func runRobust(in []string) []string {
 	out := runCase(in)
+	if len(in) > 1 && strings.HasPrefix(in[1], "multi.") {
+		// as for lifetime scripts: no close signals, so everything must be
+		// answered and every connection open; once more before reporting
+		nx, nr, bad := 0, 0, false
+		for _, t := range in[2:] {
+			if t != "N" {
+				nx++
+			}
+		}
+		for _, t := range out {
+			if strings.HasPrefix(t, "R:") {
+				nr++
+			}
+			if strings.HasPrefix(t, "END:") && t != "END:open" {
+				bad = true
+			}
+		}
+		if nr != nx || bad {
+			return runCase(in)
+		}
+		return out
+	}
 	if len(in) > 1 && strings.HasPrefix(in[1], "life.") {
 		// lifetime scripts carry no close signal: anything but a fully served,
 		// still open connection is either the defect or a stalled machine
